@@ -96,6 +96,26 @@ Theorem C05_release_refs_matches_source :
   forall w m n, Gen.KN__refs.gen_release_refs w m n = release w m n.
 Proof. exact bridge_release_refs. Qed.
 Print Assumptions C05_release_refs_matches_source.
+Theorem C05_emit_matches_source :
+  forall fuel g depth n w x m,
+  push (S fuel) g depth n w x m =
+  Gen.KN__emit.gen_emit (fun w => downs g w n) (call_update_of fuel g depth n) w x m.
+Proof. exact bridge_emit. Qed.
+Print Assumptions C05_emit_matches_source.
+Theorem C05_emit_matches_source_any_callee :
+  forall emitfrom g depth n w x m,
+  (let ds := downs g w n in
+   fold_left (deliver emitfrom g depth n x m) ds (retain w m (Z.of_nat (length ds)), SOk)) =
+  Gen.KN__emit.gen_emit (fun w => downs g w n) (call_update emitfrom g depth n) w x m.
+Proof. exact bridge_emit_gen. Qed.
+Print Assumptions C05_emit_matches_source_any_callee.
+Theorem C05_deliver_is_call_then_release :
+  forall emitfrom g depth n x m w s d, status_go s = true ->
+  deliver emitfrom g depth n x m (w, s) d =
+  let '(w', s') := call_update emitfrom g depth n d w x m in
+  if status_go s' then (release w' m 1, status_join s s') else (w', s').
+Proof. exact deliver_call_release. Qed.
+Print Assumptions C05_deliver_is_call_then_release.
 (* ---- _emit bridges (harness/mkprops_emit.py): end ---- *)
 
 (* ---- node bridges (harness/mkprops_nodes.py): begin ---- *)
